@@ -314,3 +314,7 @@ package olareg
 //@   props C07 C15
 //@   -- an entry is only left out when a page holding it alone is larger than the limit
 //@   assert [dropped-only-if-too-large]{C07} before "single descriptor greater than limit": len(next) > limit
+
+//@ -- the repository grammar of the distribution specification (C16: what reaches the store is a relative path of
+//@ -- lower case alphanumeric elements separated by single separators; the axiom repo-grammar-is-safe is about this language)
+//@ regexp rePath == "^[a-z0-9]+(?:(?:\\.|_|__|-+)[a-z0-9]+)*(?:\\/[a-z0-9]+(?:(?:\\.|_|__|-+)[a-z0-9]+)*)*$" {C16,C15}
